@@ -212,10 +212,9 @@ def _op_balance(self, op):
             elif m == "eager":
                 mapf = _eager_map
             else:
-                pool = seams.SimPool(cfg.get("nproc", 2))
+                pool = seams.SimPool(cfg.get("nproc", 2), copy=not m.startswith("thread"))
                 sim.sched.param = "p%dw0" % pool.no
-                mapf = {"pool.map": pool.map, "pool.imap": pool.imap,
-                        "pool.imap_unordered": pool.imap_unordered}[m]
+                mapf = {"map": pool.map, "imap": pool.imap, "imap_unordered": pool.imap_unordered}[m.split(".")[1]]
             with warnings.catch_warnings(), np.errstate(all="ignore"):
                 warnings.simplefilter("ignore")
                 if m == "cli":
@@ -379,9 +378,9 @@ def _op_balance(self, op):
                 elif vc["map"] == "eager":
                     mapf = _eager_map
                 else:
-                    pool = seams.SimPool(vc.get("nproc", 2))
-                    mapf = {"pool.map": pool.map, "pool.imap": pool.imap,
-                            "pool.imap_unordered": pool.imap_unordered}[vc["map"]]
+                    pool = seams.SimPool(vc.get("nproc", 2), copy=not vc["map"].startswith("thread"))
+                    mapf = {"map": pool.map, "imap": pool.imap,
+                            "imap_unordered": pool.imap_unordered}[vc["map"].split(".")[1]]
                 saved_policy = sim.sched.policy
                 sim.sched.policy = vc.get("policy", "uniform")
                 try:
